@@ -29,4 +29,17 @@ structure Row where
   returns : RetKind
   deriving Repr
 
+/-- Which dictionary the `fields` attribute of a freshly constructed instance of a Type class is. -/
+inductive FieldsOwner where
+  | own           -- its own copy (what `Type.__init__` makes: `self.fields = self.fields.copy()`)
+  | classLevel    -- the class-level dictionary itself: shared by every instance for the life of the process
+  | noClassDict   -- abstract base without a class-level `fields` (cannot be constructed; nothing to share)
+  | unknown       -- the translator could not construct an instance
+  deriving DecidableEq, Repr
+
+structure TypeClassRow where
+  name : String
+  owner : FieldsOwner
+  deriving DecidableEq, Repr
+
 end Pedal.TifaWrapper
